@@ -20,6 +20,11 @@ from .report import (RuleResult, load_known, match_known, write_evidence,
 from .registry import PROPS, RULES
 
 
+def _interp_stats():
+    from .interp import STATS
+    return STATS
+
+
 def run_property(prop: str, tier: str, replay: str = None) -> int:
     t0 = time.time()
     seed = int(os.environ.get("VERIF_SEED", "0") or 0)
@@ -105,7 +110,8 @@ def run_property(prop: str, tier: str, replay: str = None) -> int:
             "classes": len(run.repo.classes),
             "functions": len(run.repo.functions),
             "node_classes": len(run.repo.node_classes()),
-            "interpreter_paths": run.paths_total,
+            "interpreter_paths": _interp_stats()["paths"],
+            "interpreter_entry_functions": _interp_stats()["functions"],
             "source_digest": run.repo.digest[:16],
             **analysed,
         },
